@@ -810,7 +810,7 @@ class AnnotationCollection(AbstractFeatureIntervalCollection):
         genes_to_keep = []
         features_collections_to_keep = []
         variant_collections_to_keep = []
-        for i in ids:
+        for i in dict.fromkeys(ids):
             child = self.guid_map.get(i)
             if child is None:
                 continue
